@@ -118,6 +118,17 @@ PROPS = {
             "histories: each call is proved for every stored value, cross-call monotonicity follows per call",
         ],
     },
+    "C10": {
+        "units": ["psl"], "kani_complete": [], "kani_bounded_quick": [], "kani_bounded_thorough": [],
+        "design_ref": "DESIGN.md section 5 / C10",
+        "not_covered": [
+            "the first sentence of C10: equality with the publicsuffix.org algorithm applied to public_suffix_list.dat "
+            "(needs the 9.8k-rule text file as an oracle and a correspondence with the packed trie: an enumeration, "
+            "not a contract). A regenerated or bit-flipped table that stays well-formed is NOT detected",
+            "'exactly one more label than the suffix' is claimed only as: a non-empty label-aligned suffix",
+            "find(..) == None => no node in range has that label (needs the sortedness of the table as a contract)",
+        ],
+    },
     "C11": {
         "units": ["cer"], "kani_complete": [], "kani_bounded_quick": [], "kani_bounded_thorough": [],
         "design_ref": "DESIGN.md section 5 / C11",
@@ -136,7 +147,7 @@ PROPS = {
         ],
     },
     "C15": {
-        "units": ["hid", "u2f"],
+        "units": ["hid", "u2f", "psl"],
         "kani_complete": [],
         "kani_bounded_quick": [],
         "kani_bounded_thorough": [],
